@@ -26,21 +26,52 @@ def pRep {β : Type} (p : P β) : Nat → P (List β)
 def pCount {β : Type} (p : P β) : P (List β) := do let n ← pNat; pRep p n
 def expect (s : String) : P Unit := do let a ← tok; if a == s then pure () else failure
 
+/-! the instance of the geometric parameters the driver runs the model with -/
+
+def nearestRat (nodes : List (MNode Rat)) (p : Pt Rat) : Option (MNode Rat) :=
+  match nodes with
+  | [] => none
+  | n :: ns => some (ns.foldl (fun m x => if sqDist p x.p < sqDist p m.p then x else m) n)
+
+def geoRat : Geo Rat := { nearest := nearestRat, ptEq := ptEqRat, length := polyLen, euclid := segLen, one := 1 }
+
+/-- a case is a HISTORY of operations on one network -/
 structure Case where
   fam : String
   exact : Bool
   opt : Opt
-  links : List (Link Rat)
-  qs : List (Pt Rat × Pt Rat)
+  ops : List (Op Rat)
+
+def pOp : P (Op Rat) := do
+  let k ← tok
+  if k == "L" then
+    let sp ← pRat; let pts ← pCount pPtR; pure (.link ⟨pts, sp⟩)
+  else if k == "Q" then
+    let a ← pPtR; let b ← pPtR; pure (.query a b)
+  else failure
 
 def pCase : P Case := do
   expect "net"
   let fam ← tok
   let x ← tok
   let o ← tok
-  let links ← pCount (do let sp ← pRat; let pts ← pCount pPtR; pure (⟨pts, sp⟩ : Link Rat))
-  let qs ← pCount (do let a ← pPtR; let b ← pPtR; pure (a, b))
-  pure ⟨fam, x == "X", if o == "T" then .time else .distance, links, qs⟩
+  let ops ← pCount pOp
+  pure ⟨fam, x == "X", if o == "T" then .time else .distance, ops⟩
+
+def Case.links (c : Case) : List (Link Rat) := linksOf c.ops
+
+/-- the queries of the history, each with the number of links added before it and the model network
+at that moment (`none`: the model faulted building it) -/
+def Case.moments (c : Case) : List (Pt Rat × Pt Rat × Nat × Option (Net Rat)) :=
+  let rec go : Option (Net Rat) → Nat → List (Op Rat) → List (Pt Rat × Pt Rat × Nat × Option (Net Rat))
+    | _, _, [] => []
+    | net, i, .link l :: r =>
+      let net' := match net with
+        | some n => match addLink geoRat n i l with | .ok n' => some n' | .error _ => none
+        | none => none
+      go net' (i + 1) r
+    | net, i, .query a b :: r => (a, b, i, net) :: go net i r
+  go (some (newNetwork c.opt)) 0 c.ops
 
 structure Arc where
   u : Nat
@@ -88,15 +119,6 @@ def pQRes : P QRes := do
       if ls.all (· ≥ 0) then pure (.ok ⟨ls.map Int.toNat, d, t, sd, ed⟩ ls) else pure .bad
     | _ => pure .bad
 
-/-! the instance of the geometric parameters the driver runs the model with -/
-
-def nearestRat (nodes : List (MNode Rat)) (p : Pt Rat) : Option (MNode Rat) :=
-  match nodes with
-  | [] => none
-  | n :: ns => some (ns.foldl (fun m x => if sqDist p x.p < sqDist p m.p then x else m) n)
-
-def geoRat : Geo Rat := { nearest := nearestRat, ptEq := ptEqRat, length := polyLen, euclid := segLen, one := 1 }
-
 def idOrd : Nat → List Nat → List Nat := fun _ l => l
 
 def hasParallel (net : Net Rat) : Bool :=
@@ -132,6 +154,12 @@ def specNet (c : Case) (d : Dump) : Option SNet := do
     | none => none
   pure ⟨links, d.nodes⟩
 
+/-- the network as it was when only the first `m` links had been added: those links (their end
+nodes never change afterwards) and the nodes they touch -/
+def SNet.atMoment (sn : SNet) (m : Nat) : SNet :=
+  let ls := sn.links.take m
+  ⟨ls, sn.pos.filter fun (i, _) => ls.any fun l => l.a == i || l.b == i⟩
+
 def judgeLine (line : String) : String :=
   let (lhs, rhs) := splitArrow (tokens line)
   match pCase lhs with
@@ -152,7 +180,8 @@ def judgeLine (line : String) : String :=
         match pDump rhs with
         | none => "BAD parse-dump"
         | some (d, rest) =>
-          match (do expect "|"; expect "R"; pRep pQRes c.qs.length) rest with
+          let ms := c.moments
+          match (do expect "|"; expect "R"; pRep pQRes ms.length) rest with
           | none => "BAD parse-results"
           | some (rs, _) =>
             match specNet c d with
@@ -160,9 +189,9 @@ def judgeLine (line : String) : String :=
             | some sn =>
               if !sn.endsOk then s!"SPEC {cls} link-end-node-not-at-link-end-point" else
               -- Spec verdicts on the implementation's answers
-              let sv := (c.qs.zip rs).zipIdx.findSome? fun (((a, b), r), i) =>
+              let sv := (ms.zip rs).zipIdx.findSome? fun (((a, b, m, _), r), i) =>
                 match r with
-                | .ok ans _ => (judgeQuery sn c.opt c.exact a b ans).map (s!"q{i}:" ++ ·)
+                | .ok ans _ => (judgeQuery (sn.atMoment m) c.opt c.exact a b ans).map (s!"q{i}@{m}:" ++ ·)
                 | .panic m => some s!"q{i}:panic-{m}"
                 | .bad => some s!"q{i}:route-element-is-not-a-link-or-total-not-finite"
               match sv with
@@ -172,12 +201,16 @@ def judgeLine (line : String) : String :=
                 | some why => s!"DIFF {cls} {why}"
                 | none =>
                   -- model routes against implementation routes
-                  let mv := (c.qs.zip rs).zipIdx.foldl (init := (none, true)) fun (acc : Option String × Bool) (((a, b), r), i) =>
+                  let mv := (ms.zip rs).zipIdx.foldl (init := (none, true)) fun (acc : Option String × Bool) (((a, b, m, mnet), r), i) =>
                     match acc.1 with
                     | some _ => acc
                     | none =>
                       -- a query point equidistant from several nodes: the R-tree may pick any of them
-                      if (sn.nearest a).length != 1 || (sn.nearest b).length != 1 then (none, false) else
+                      let snm := sn.atMoment m
+                      if (snm.nearest a).length != 1 || (snm.nearest b).length != 1 then (none, false) else
+                      match mnet with
+                      | none => (some s!"q{i}:model-has-no-network-at-this-moment", false)
+                      | some net =>
                       match shortestRoute geoRat pickMin true idOrd net a b, r with
                       | .ok m, .ok ans _ =>
                         let cm := match c.opt with | .distance => m.distance | .time => m.time
